@@ -1,4 +1,4 @@
-CONSTANTS FStride = 1
+CONSTANTS FStride = 4
 INIT Init
 NEXT Next
 INVARIANTS Out RefTotal
